@@ -1,4 +1,5 @@
 import EventppVerif.Q.Machine
+import EventppVerif.Q.Copy
 /- Line-protocol front end for Q/Machine.lean (mode `q` of the driver). -/
 open Evp Evp.Q
 
@@ -65,7 +66,9 @@ structure Script where
   norw : Bool := false
   showKeys : Bool := false
   ordered : Option Bool := none
+  /-- top-level commands; `none` entries are the copy / move meta-commands (in `metas`, by position) -/
   dos : List QCmd := []
+  metas : List (Nat × String) := []
 
 def behOf (sc : Script) : QBeh where
   run := fun call nth =>
@@ -107,13 +110,21 @@ def run (sc : Script) : List String := Id.run do
   let b := behOf sc
   let mut c : QCfg := { ordered := sc.ordered, nkeys := sc.nkeys }
   let mut out : List String := []
+  let mut idx := 0
   for cmd in sc.dos do
-    let before := c.trace.length
-    let (c', halted) := QCfg.runN b stepBudget { c with stack := [.prog (.op cmd (fun _ => .ret true))] }
-    c := { c' with stack := [] }
-    let newEvs := (c.trace.take (c.trace.length - before)).reverse
-    out := out ++ newEvs.filterMap (showEv sc.showKeys)
-    if !halted then out := out ++ ["fuel"]
+    let metaKind := (sc.metas.find? (fun p => p.1 == idx)).map (·.2)
+    idx := idx + 1
+    match metaKind with
+    | some kind =>
+      c := if kind == "copy" then c.copyOf else c.moveOf
+      out := out ++ ["ev res unit"]
+    | none =>
+      let before := c.trace.length
+      let (c', halted) := QCfg.runN b stepBudget { c with stack := [.prog (.op cmd (fun _ => .ret true))] }
+      c := { c' with stack := [] }
+      let newEvs := (c.trace.take (c.trace.length - before)).reverse
+      out := out ++ newEvs.filterMap (showEv sc.showKeys)
+      if !halted then out := out ++ ["fuel"]
     let qs := c.queue.map (fun s => match s.ev with
       | some e => s!"{e.key}:{e.arg}"
       | none => "<empty-slot>")
@@ -137,6 +148,8 @@ def addLine (sc : Script) (line : String) : Script :=
   | ["cfg", "ordered", v] => { sc with ordered := if v = "asc" then some true else if v = "desc" then some false else none }
   | "beh" :: cb :: nth :: v :: rest =>
     { sc with beh := sc.beh ++ [⟨nat! cb, if nth = "*" then none else some (nat! nth), v != "0", splitSemi rest⟩] }
+  | ["do", "qcopy", _] => { sc with metas := sc.metas ++ [(sc.dos.length, "copy")], dos := sc.dos ++ [.emptyq] }
+  | ["do", "qmove", _] => { sc with metas := sc.metas ++ [(sc.dos.length, "move")], dos := sc.dos ++ [.emptyq] }
   | "do" :: rest =>
     match parseCmd rest with
     | some c => { sc with dos := sc.dos ++ [c] }
